@@ -158,6 +158,21 @@ Definition vplace_member (pre : list node) (tgt : node) (r : ref) (m : node) : P
                   key_shown (pre ++ flat_map self_occ (firstn j els))%list m.
 End Visible.
 
+(* a check along a container: item x at position pos, preceded by pre *)
+Section AllAt.
+  Context {A : Type}.
+  Variable f : A -> list node.
+  Variable chk : list node -> nat -> A -> bool.
+  Fixpoint all_at (l : list A) (pos : nat) (pre : list node) : bool :=
+    match l with
+    | [] => true
+    | x :: r => chk pre pos x && all_at r (S pos) (pre ++ f x)%list
+    end.
+End AllAt.
+
+(* every occurrence in l is the same object as one in pre *)
+Definition all_rep (pre : list node) (l : list node) : bool := forallb (same_oid_in pre) l.
+
 Section Spec.
 Variable lit : string -> outcome litres.
 Variable re_search : string -> string -> outcome reres.
@@ -181,6 +196,37 @@ Definition wanted (o : opts) (d : node) (l : loc) : Prop :=
   (o_values o = true /\ exists v, value_place d l v /\ satisfies v)
   \/ (o_keys o = true /\ exists k, key_place d l k /\ satisfies k)
   \/ (exists k, member_place d l k /\ satisfies k).
+
+Definition satisfiesb (s : node) : bool :=
+  match term_matches lit re_search tm (node_hay s) with Ok true => true | _ => false end.
+
+(* Guard of the exclusion theorem: no anchored node is met for the FIRST time
+   inside a part of the document that the search does not enter -- beneath an
+   excluded aliased value / element, beneath the value of an excluded aliased
+   key, inside a merged-in entry when neither alias option is on, beneath a
+   key that satisfies the expression when keys are searched (known finding
+   key_match_prunes_subtree: such an anchor is not recorded, and a later alias
+   of it passes for the original). *)
+Fixpoint exposed (mt : mtable) (o : opts) (n : node) (pre : list node) {struct n} : bool :=
+  match n with
+  | NSeq _ els =>
+      all_at elem_occs
+             (fun pre (_ : nat) e =>
+                if negb (o_valias o) && is_repeat pre e then all_rep (pre ++ self_occ e) (anc_occs e)
+                else exposed mt o e (pre ++ self_occ e)%list)
+             els 0 pre
+  | NMap i kvs =>
+      all_at entry_occs
+             (fun pre pos kv =>
+                let pre2 := ((pre ++ self_occ (fst kv)) ++ self_occ (snd kv))%list in
+                if skip_merged mt o (oid i) pos then all_rep pre (entry_occs kv)
+                else if (negb (o_kalias o) && is_repeat pre (fst kv)) || (o_keys o && satisfiesb (fst kv))
+                        || (negb (o_valias o) && is_repeat (pre ++ self_occ (fst kv)) (snd kv))
+                     then all_rep pre2 (anc_occs (snd kv))
+                     else exposed mt o (snd kv) pre2)
+             kvs 0 pre
+  | _ => true
+  end.
 
 (* the same two notions restricted to what the alias options leave visible *)
 Definition vplace (mt : mtable) (o : opts) (d : node) (l : loc)
